@@ -39,6 +39,9 @@ def sessions():
           ("c", 1, "POWERON"), ("c", 0, "POWERON"), ("t",), ("d", 0, 0, 1, 1, 3, 148), ("t",), ("t",),
           ("d", 1, 0, 2, 1, 0, 148), ("t",), ("t",), ("c", 1, "MEASURE %d" % F1),
           ("c", 0, "SETFH 5 1 %d %d %d %d" % (F2, F1, F1, F2)), ("d", 0, 0, 3, 1, 1, 148), ("t",), ("t",),
+          # the same command again while hopping is in force: a refused variant of it must leave hopping as it is
+          ("c", 0, "SETFH 5 1 %d %d %d %d" % (F2, F1, F1, F2)), ("d", 0, 0, 4, 1, 1, 148), ("t",), ("t",),
+          ("d", 0, 0, 5, 2, 1, 148), ("t",), ("t",), ("t",),      # (a frame in which the hopping sender is on the other carrier)
           ("c", 0, "POWEROFF"), ("t",), ("c", 1, "POWEROFF")]
     s2 = [("c", 0, "SETFORMAT 1"), ("c", 1, "SETFORMAT 1"), ("c", 1, "FAKE_TOA 10 2"), ("c", 1, "FAKE_RSSI -80 3"),
           ("c", 1, "FAKE_CI 80 5"), ("c", 1, "FAKE_DROP 1 2"), ("c", 1, "FAKE_TRXC_DELAY 0"), ("c", 0, "SETTA 2"), ("c", 0, "SETPOWER 4"),
@@ -149,6 +152,7 @@ def run_one(extra, events, pos, port_kind, trx, payload, replace=False):
         if v:
             return [("session-" + v[0][0], "fault-free prefix already fails: %s" % v[0][1])]
     diverged = False
+    cls = None
     if port_kind == "c":
         v, changed = W.ctrl_fault(trx, payload)
         cls = trxmodel.classify_ctrl(payload)
@@ -176,8 +180,9 @@ def run_one(extra, events, pos, port_kind, trx, payload, replace=False):
         return [("not-serving", "after the fault: %s" % v[0][1])]
     for ev in events[pos + 1 if replace else pos:]:
         v = do_event(W, ev)
-        if diverged or replace:
-            # (with the valid datagram left out the session is another one: only its survival is judged)
+        if diverged or (replace and cls != "VALID"):
+            # (with the valid datagram left out the session is another one: only its survival is judged -
+            # unless the mutant is itself a well-formed command, whose effect the reference model knows)
             v = [x for x in v if x[0] == "exception"]
         if v:
             return [("after-fault-" + v[0][0], "rest of the session after the fault%s: %s"
